@@ -16,7 +16,7 @@ Definition det_next (table : list string) (m : nat) (o : dop string) : nat :=
   match o with
   | DGen n => m + n
   | DScan n act => m + keep_num (map act (firstn n (skipn m table)))
-  | DSaveReload | DLock | DUnlock | DFailed => m
+  | DSaveReload | DLock | DUnlock | DFailed | DRead => m
   end.
 Fixpoint det_walk (table : list string) (m : nat) (ops : list (dop string)) (obs : list (nat * list string)) : option nat :=
   match ops, obs with
@@ -67,6 +67,7 @@ Definition idx_next (tables : list (list string)) (ms : list nat) (o : iop strin
   | IUnlock => ms
   | IFailed => ms
   | INewAccount => ms ++ [0; 0]
+  | IRead => ms
   end.
 Fixpoint chains_are (tables : list (list string)) (ms : list nat) (cs : list (list string)) : bool :=
   match ms, tables, cs with
